@@ -27,7 +27,7 @@ def find_main_loop(func):
     for st in func.node.body:
         if isinstance(st, ast.While):
             has_step = any(isinstance(n, ast.Call) and isinstance(n.func, ast.Attribute) and n.func.attr == "step" for n in ast.walk(st))
-            sets_qn = any(isinstance(n, ast.Assign) and any(isinstance(t, ast.Attribute) and t.attr == "Qn" for t in n.targets) for n in ast.walk(st))
+            sets_qn = any(isinstance(n, ast.Assign) and any(isinstance(x, ast.Attribute) and x.attr == "Qn" and isinstance(x.ctx, ast.Store) for t in n.targets for x in ([t] if not isinstance(t, (ast.Tuple, ast.List)) else t.elts)) for n in ast.walk(st))
             if has_step and sets_qn:
                 cands.append(st)
     if len(cands) != 1:
@@ -390,6 +390,10 @@ def _iteration_rules(res, drv, fsolve, f, ends):
         reduces = [ev for ev in e.events if ev[0] == "reduce" and ev[2] == dtname]
         if any(ev[1] != "min" for ev in reduces):
             bad("DRV-DT-MIN", "global time step is the %s over cells, not the minimum" % reduces[0][1], reduces[0][3], "dt-reduce")
+        # ---- a guard of a step that exact arithmetic makes redundant
+        red = [ev for ev in e.events if ev[0] == "redundant-step-guard"]
+        if red:
+            bad("DRV-SNAPSHOT", "the step at line %d is guarded by a comparison (%s) that the loop condition already implies in exact arithmetic: in floating point the two tests are different expressions (`t + dt >= s` and `s - t <= dt` disagree when t + dt rounds up to s), the guard can fail, the step is skipped and the snapshot is the previous state stamped as the save time's" % (red[0][2], red[0][1]), red[0][2], "fp-redundant-guard")
         # ---- a shallow copy that is stepped advances the arrays of its original as well
         shallow = {ev[2]: ev for ev in e.events if ev[0] == "shallow-copy"}
         hit = [ev for ev in steps if ev[1] in shallow]
@@ -680,6 +684,16 @@ def forwarded(res, name, fn, heads):
                     if extra:
                         res.bad("DRV-FORWARD", "%s: the criteria given to _check_end hold %s besides the last save time and the caller's `stop` entries: a criterion the caller did not ask for ends a run that needs longer before its last save time (the field list comes back short, without an error)" % (name, ", ".join(repr(k) for k in extra)), e[2], name + "-extra-criterion")
                         return False
+                if isinstance(e[4], dict):
+                    keys = list(e[4])
+                    spread = [i for i, k in enumerate(keys) if k.startswith("**")]
+                    if "tottime" in keys and spread and keys.index("tottime") > min(spread):
+                        # the default is stored AFTER the caller's entries: it wins -- admissible only on the path where the caller
+                        # has no such entry (a membership test, not a truthiness test: `tottime: 0` is an entry)
+                        absent = any(k.startswith("tottime in ") and v is False for k, v in h.bools.items())
+                        if not absent:
+                            res.bad("DRV-FORWARD", "%s: the default stop time (the last save time) is stored over the caller's `stop` entries on a path that has not established that the caller gave no 'tottime' (a truthiness test -- `not stop.get('tottime')` -- takes a stop time of 0 for absent: the run goes on to the last save time)" % name, e[2], name + "-default-overrides")
+                            return False
                 if r - {"stop", "tsave"}:
                     res.bad("DRV-FORWARD", "%s: the criteria given to _check_end are built from %s, not from the caller's `stop` argument" % (name, sorted(r) or "no caller argument"), e[2], name + "-stop")
                     return False
